@@ -210,7 +210,7 @@ macro_rules! c13h {
 }
 // @h props=C13 tier=quick cap=900 desc="v1 get: one State / Err answer with the request's id, core answer chosen by the solver (ok, NoSuchValue, CasVersionMismatch, NotLeader)" bounds="tid u64; 4 core answers"
 c13h!(c13_v1_get, true, K_GET);
-// @h props=C13 tier=quick cap=900 desc="v1 cget" bounds="tid u64; 4 core answers"
+// @h props=C13 tier=thorough cap=900 desc="v1 cget" bounds="tid u64; 4 core answers"
 c13h!(c13_v1_cget, true, K_CGET);
 // @h props=C13 tier=quick cap=900 desc="v1 pget" bounds="tid u64; 4 core answers"
 c13h!(c13_v1_pget, true, K_PGET);
@@ -218,11 +218,11 @@ c13h!(c13_v1_pget, true, K_PGET);
 c13h!(c13_v1_set, true, K_SET);
 // @h props=C13 tier=quick cap=900 desc="v1 cset" bounds="tid u64; 4 core answers"
 c13h!(c13_v1_cset, true, K_CSET);
-// @h props=C13 tier=quick cap=900 desc="v1 spub_init" bounds="tid u64; 4 core answers"
+// @h props=C13 tier=thorough cap=900 desc="v1 spub_init" bounds="tid u64; 4 core answers"
 c13h!(c13_v1_spub_init, true, K_SPUB_INIT);
-// @h props=C13 tier=quick cap=900 desc="v1 spub" bounds="tid u64; 4 core answers"
+// @h props=C13 tier=thorough cap=900 desc="v1 spub" bounds="tid u64; 4 core answers"
 c13h!(c13_v1_spub, true, K_SPUB);
-// @h props=C13 tier=quick cap=900 desc="v1 publish" bounds="tid u64; 4 core answers"
+// @h props=C13 tier=thorough cap=900 desc="v1 publish" bounds="tid u64; 4 core answers"
 c13h!(c13_v1_publish, true, K_PUBLISH);
 // @h props=C13 tier=quick cap=900 desc="v1 subscribe: Ack before the forwarding task, no task for a refused subscription" bounds="tid u64; 4 core answers"
 c13h!(c13_v1_subscribe, true, K_SUBSCRIBE);
@@ -236,11 +236,11 @@ c13h!(c13_v1_delete, true, K_DELETE);
 c13h!(c13_v1_pdelete, true, K_PDELETE);
 // @h props=C13 tier=quick cap=900 desc="v1 ls" bounds="tid u64; 4 core answers"
 c13h!(c13_v1_ls, true, K_LS);
-// @h props=C13 tier=quick cap=900 desc="v1 pls" bounds="tid u64; 4 core answers"
+// @h props=C13 tier=thorough cap=900 desc="v1 pls" bounds="tid u64; 4 core answers"
 c13h!(c13_v1_pls, true, K_PLS);
-// @h props=C13 tier=quick cap=900 desc="v1 subscribe_ls" bounds="tid u64; 4 core answers"
+// @h props=C13 tier=thorough cap=900 desc="v1 subscribe_ls" bounds="tid u64; 4 core answers"
 c13h!(c13_v1_subscribe_ls, true, K_SUBSCRIBE_LS);
-// @h props=C13 tier=quick cap=900 desc="v1 unsubscribe_ls" bounds="tid u64; 4 core answers"
+// @h props=C13 tier=thorough cap=900 desc="v1 unsubscribe_ls" bounds="tid u64; 4 core answers"
 c13h!(c13_v1_unsubscribe_ls, true, K_UNSUBSCRIBE_LS);
 // @h props=C13 tier=quick cap=900 desc="v1 lock" bounds="tid u64; 4 core answers"
 c13h!(c13_v1_lock, true, K_LOCK);
@@ -311,7 +311,7 @@ c13h!(c13_v0_get, false, K_GET);
 c13h!(c13_v0_set, false, K_SET);
 // @h props=C13 tier=quick cap=900 desc="v0 subscribe" bounds="tid u64; 4 core answers"
 c13h!(c13_v0_subscribe, false, K_SUBSCRIBE);
-// @h props=C13 tier=quick cap=900 desc="v0 pdelete" bounds="tid u64; 4 core answers"
+// @h props=C13 tier=thorough cap=900 desc="v0 pdelete" bounds="tid u64; 4 core answers"
 c13h!(c13_v0_pdelete, false, K_PDELETE);
 
 macro_rules! c13h2 {
@@ -369,7 +369,7 @@ fn c13_unimplemented(v1: bool, kind: u8) {
     assert!(!ended && answered, "C13: a request kind the negotiated protocol version does not implement is answered with an Err carrying its id, the session continues (fixed finding KF-C13-unimplemented-ends-session)");
     kani::cover!(true);
 }
-// @h props=C13 tier=quick cap=600 desc="v1 transform (not implemented): must be answered with an Err carrying its id, session continues" bounds="tid u64"
+// @h props=C13,C17 tier=quick cap=600 desc="v1 transform (not implemented): must be answered with an Err carrying its id, session continues" bounds="tid u64"
 c13h2!(c13_v1_transform_unimplemented, true, K_TRANSFORM);
 // @h props=C13 tier=quick cap=600 desc="v0 cset (v1-only request on a v0 session): must be answered with an Err carrying its id" bounds="tid u64"
 c13h2!(c13_v0_cset_unimplemented, false, K_CSET);
